@@ -77,6 +77,10 @@ pub struct Fiber {
   /// The parent fiber to this fiber
   parent: Option<Ref<Self>>,
 
+  /// Does the parent block until this fiber completes, as
+  /// in this fiber runs the body of a module being imported
+  awaited: bool,
+
   /// The channel waiter for this fiber
   waiter: Ref<ChannelWaiter>,
 
@@ -148,6 +152,7 @@ impl Fiber {
       stack,
       waiter,
       frames,
+      awaited: parent.is_some(),
       parent,
       channels: UniqueVector::default(),
       exception_handlers: UniqueVector::default(),
@@ -241,6 +246,11 @@ impl Fiber {
     self.state == FiberState::Pending
   }
 
+  /// Is this fiber blocked
+  pub fn is_blocked(&self) -> bool {
+    self.state == FiberState::Blocked
+  }
+
   /// Activate this fiber
   pub fn activate(&mut self) {
     assert!(matches!(
@@ -281,10 +291,15 @@ impl Fiber {
     self.state = FiberState::Complete;
     self.waiter.set_runnable(false);
 
-    // load from waiting fiber biases toward the parent fiber
+    // load from waiting fiber biases toward the parent fiber. A parent
+    // blocked in an import is woken by the module's fiber and by
+    // nothing else
+    let awaited = self.awaited;
     let waiter = self
       .parent
-      .filter(|parent| parent.is_pending())
+      .filter(|parent| {
+        parent.is_pending() || (awaited && parent.is_blocked())
+      })
       .map(|parent| parent.waiter)
       .or_else(|| self.get_runnable());
 
@@ -632,6 +647,7 @@ impl Fiber {
       waiter,
       frames,
       parent: Some(fiber),
+      awaited: false,
       channels: UniqueVector::default(),
       exception_handlers: UniqueVector::default(),
       state: FiberState::Pending,
